@@ -14,11 +14,11 @@ def run(c):
         return
     _, ev2 = pc.enumerate_programs(c, "C05", 5 if c.quick else 6, ["sum", "lt"], "holes", holes=True, every=40 if c.quick else 200)
     n = 1 if c.quick else 20
-    ev3 = pc.generated(c, "C05", [("corpus", 0), ("alias", 400 * n), ("recursion", 40 * n, 8), ("punch", 200 * n), ("bigint", 40 * n)])
+    ev3 = pc.generated(c, "C05", [("corpus", 0), ("alias", 400 * n), ("typed", 400 * n, 3), ("dependent", 200 * n), ("recursion", 40 * n, 8), ("punch", 200 * n), ("bigint", 40 * n)])
     # crashes of the checker on generated programs: judge them here (a crash is 'not accepted')
     g = json.load(open(vf.WORK + "/pipe/C05-gen.json"))
     for m in g["mism"]:
-        if m.get("prop") in ("crash", "timeout") and m.get("origin") in ("alias", "recursion", "bigint", "corpus"):
+        if m.get("prop") in ("crash", "timeout") and m.get("origin") in ("alias", "recursion", "bigint", "corpus", "typed"):
             c.violate("the checker crashes on a well-typed, annotated program: %s" % m.get("text"), dict(kind="pipeline-crash", text=m.get("text"), origin=m.get("origin"), what=m["what"]))
     allp = pc.validate(c, "C05", [ev1, ev2, ev3], "events")
 
